@@ -66,20 +66,26 @@ theorem pattern_sites_raw_quoted :
   decide
 
 /-- FULL STRENGTH, all patterns, both branches of `pattern_literal`: the literal the generator
-writes evaluates to exactly the pattern and the lexer resumes right behind it. -/
-theorem pattern_literal_exact (pr : Char → Bool) (p rest : List Char)
+writes evaluates to exactly the pattern and the lexer resumes right behind it. `pr` =
+`str.isprintable` of one character (the raw branch is taken iff no single quote, no dangling
+backslash and every character printable); the proof needs `printableOK pr` — LF, CR, NUL are not
+printable — which CPython's table satisfies (`Props/C01.cpython_printable_ok`) and which is
+necessary (`Props/C01.pattern_literal_needs_printableOK`). -/
+theorem pattern_literal_exact (pr : Char → Bool) (hpr : printableOK pr = true) (p rest : List Char)
     (h1 : rest.head? ≠ some '\'') (h2 : rest.head? ≠ some '"') :
-    (if patternRawOK p then litRaw '\'' ('\'' :: p ++ ['\''] ++ rest)
+    (if patternRawOK pr p then litRaw '\'' ('\'' :: p ++ ['\''] ++ rest)
      else lit (Dcg.Py.Repr.reprQuote p) (Dcg.Py.Repr.reprStr pr p ++ rest)) = some (p, rest) := by
   split
   · rename_i h
-    exact litRaw_plain (by decide) p rest h h1
+    exact litRaw_plain (t := []) (by decide) p rest (rawSafe_of_patternRawOK hpr p h) h1
   · refine Dcg.Proofs.Repr.repr_roundtrip pr p rest ?_
     rcases Dcg.Proofs.Repr.reprQuote_cases p with h | h <;> rw [h] <;> assumption
 
-example : patternRawOK "^\\d+\\.[a-z]\\\\$".toList = true := by decide
-example : patternRawOK "^a'\\b\"$".toList = false := by decide
-example : patternRawOK "dangling\\".toList = false := by decide
+example : printableOK (fun c => 32 ≤ c.toNat) = true := by decide
+example : patternRawOK (fun c => 32 ≤ c.toNat) "^\\d+\\.[a-z]\\\\$".toList = true := by decide
+example : patternRawOK (fun c => 32 ≤ c.toNat) "^a'\\b\"$".toList = false := by decide
+example : patternRawOK (fun c => 32 ≤ c.toNat) "dangling\\".toList = false := by decide
+example : patternRawOK (fun c => 32 ≤ c.toNat) "tab\t".toList = false := by decide
 
 /-- why the raw form cannot be used unconditionally (the repaired defect D5): with the former
 cooked-literal table a quote came back as backslash+quote… -/
